@@ -17,6 +17,8 @@ var safetyKinds = map[string]bool{"nil": true, "idx": true, "slice": true, "tass
 	"lib-pre": true, "panic": true, "pre": true, "nocontract": true}
 
 // propsOf attributes an obligation to properties.
+var ownContractKinds = map[string]bool{"post": true, "inv-init": true, "inv-keep": true}
+
 func propsOf(ob *Obligation, fnProps []string) []string {
 	// explicit label prefix: ".../post/C11.range-s1#0"
 	parts := strings.Split(ob.Name, "/")
@@ -42,6 +44,23 @@ func propsOf(ob *Obligation, fnProps []string) []string {
 				}
 			}
 			if len(ps) > 0 {
+				// A clause of the function's own contract carries every property the
+				// function is listed under (callers of any of them rely on it), the
+				// label's property first; C06 only counts safety obligations and
+				// clauses labelled C06.
+				if ownContractKinds[ob.Kind] {
+					for _, p := range fnProps {
+						dup := p == "C06"
+						for _, q := range ps {
+							if q == p {
+								dup = true
+							}
+						}
+						if !dup {
+							ps = append(ps, p)
+						}
+					}
+				}
 				return ps
 			}
 		}
